@@ -133,10 +133,8 @@ namespace detail
 	{
 		if(x == 0)
 			return 0.0f;
-		else if(x == ((1 << 11) - 1))
-			return ~0;//NaN
-		else if(x == (0x1f << 6))
-			return ~0;//Inf
+		else if((x & (0x1f << 6)) == (0x1f << 6))
+			return (x & 0x3f) != 0 ? std::numeric_limits<float>::quiet_NaN() : std::numeric_limits<float>::infinity();
 
 		uint Result = packed11ToFloat(x);
 
@@ -163,10 +161,8 @@ namespace detail
 	{
 		if(x == 0)
 			return 0.0f;
-		else if(x == ((1 << 10) - 1))
-			return ~0;//NaN
-		else if(x == (0x1f << 5))
-			return ~0;//Inf
+		else if((x & (0x1f << 5)) == (0x1f << 5))
+			return (x & 0x1f) != 0 ? std::numeric_limits<float>::quiet_NaN() : std::numeric_limits<float>::infinity();
 
 		uint Result = packed10ToFloat(x);
 
@@ -621,9 +617,9 @@ namespace detail
 	GLM_FUNC_QUALIFIER vec3 unpackF2x11_1x10(uint32 v)
 	{
 		return vec3(
-			detail::packed11bitToFloat(v >> 0),
-			detail::packed11bitToFloat(v >> 11),
-			detail::packed10bitToFloat(v >> 22));
+			detail::packed11bitToFloat((v >> 0) & ((1 << 11) - 1)),
+			detail::packed11bitToFloat((v >> 11) & ((1 << 11) - 1)),
+			detail::packed10bitToFloat((v >> 22) & ((1 << 10) - 1)));
 	}
 
 	GLM_FUNC_QUALIFIER uint32 packF3x9_E1x5(vec3 const& v)
